@@ -58,7 +58,8 @@ Proof. repeat split; intros [|]; vm_compute; reflexivity. Qed.
 Lemma GI_world0 : GI (fun _ => 0) (fun _ => 0) (fun _ => false) world0.
 Proof.
   unfold GI, world0; simpl. split; [|split]; auto.
-  intros c. unfold CI, conn0, jw; simpl. intuition (try lia; try discriminate).
+  - intros c. unfold CI, conn0, jw; simpl. intuition (try lia; try discriminate).
+  - unfold LI; simpl. split; auto. intros; discriminate.
 Qed.
 
 Lemma phase_step_ret_indep : forall k p, phase_step k 0 p <> None -> forall r, phase_step k r p <> None.
